@@ -689,14 +689,28 @@ def run(chk):
     chk.build_and_prove()
     pool, T = ops_table(extended=True)
     run_table(chk, "C05", pool, T, expected, IMPORTS)
+    import sys
+    import c05_fwd
+    chk.cov["distinct_nontrivial"] += c05_fwd.run_family(chk, sys.modules[__name__], pool, T)
     chk.cov["rule"] += ("; the table includes (C05 only) dematerialize over notification objects (OnNext / OnError / "
                         "OnCompleted elements, elements after an inner terminal), starmap over tuples (2 arguments, "
                         "10% wrong arity; starmap() without mapper), pluck over dicts keyed by falsy pool values and "
                         "pluck_attr over attribute records (missing key / attribute), map() / map_indexed() / "
                         "default_if_empty() without argument, distinct / distinct_until_changed with key mapper AND "
                         "comparer; comparer variants are judged by the list oracle when the comparer raises on no "
-                        "pair of keys of the input")
-    return chk.finish(trusted_extra=["hot-source K2 driver (harness/k2.py); callback tables mirrored in Gallina"])
+                        "pair of keys of the input"
+                        "; scheduler-forwarding family (harness/c05_fwd.py, oracle only; counts in coverage."
+                        "sched_forward): every operator of the table x source kind (own recording source subscribed "
+                        "with a sentinel scheduler / under TestScheduler.start: every subscription the source receives "
+                        "must carry the very scheduler object handed to subscribe; reactivex.interval(p), timer(d, p), "
+                        "timer(d), hot.delay(d), from_iterable.delay(d) without scheduler argument: the source alone "
+                        "is measured under a fresh TestScheduler and the pipeline must give the list computation over "
+                        "that timeline, each output at the virtual time of its input) x mode (single, the operator "
+                        "applied twice, operator ; share(), share() ; operator); its non-trivial cases (>=2 source "
+                        "elements, non-empty expected output, oracle satisfied) are added to distinct_nontrivial")
+    return chk.finish(trusted_extra=["hot-source K2 driver (harness/k2.py); callback tables mirrored in Gallina",
+                                     "reactivex.testing.TestScheduler / hot observable and the recording probe source of "
+                                     "harness/c05_fwd.py (scheduler-forwarding family)"])
 
 
 def run_table(chk, pid, pool, T, expected, IMPORTS, in_ty="Z", ncase=None, maxlen=7, gen_inputs=None):
@@ -807,4 +821,9 @@ def replay_table(chk, path, pid, pool, T, expected, gen_inputs=None):
 
 def replay(chk, path):
     pool, T = ops_table(extended=True)
+    d = json.load(open(path))
+    if d.get("family") == "sched_forward":
+        import sys
+        import c05_fwd
+        return c05_fwd.replay(chk, sys.modules[__name__], d, path, pool, T)
     return replay_table(chk, path, "C05", pool, T, expected)
